@@ -65,8 +65,8 @@ func main() {
 	// the second history has more registered pairs than one page of the pair query holds
 	if mode != "search" || os.Getenv("VERIF_LIFECYCLE") != "" {
 		for i, lh := range lifecycleHistories() {
-			lh.Seed = seed*1_000_003 + 800_000 + int64(i)
-			itemsA = append(itemsA, execIndex(c, lh, lib.NewRand(lh.Seed), lh.Ops, rep))
+			h := &IHistory{Seed: seed*1_000_003 + 800_000 + int64(i), Own: true, Extra: lh.Extra}
+			itemsA = append(itemsA, execIndex(c, h, lib.NewRand(h.Seed), lh.Ops, rep))
 			rep.Count(fmt.Sprintf("lifecycle:export-import:%d-extra-pairs", lh.Extra))
 		}
 	}
@@ -702,6 +702,9 @@ func (w *idxWorld) exec(o *IOp) error {
 		}
 		for _, k := range before.owned {
 			b, a := before.books[k], after.books[k]
+			if _, still := after.books[k]; !still {
+				continue // (the pair is gone: reported above)
+			}
 			if a != b || a[0] != a[1] {
 				fail("C08:export-import:books", fmt.Sprintf("pair %s: (escrowed coins, ERC-20 totalSupply) = (%s, %s) before the export and (%s, %s) after the import", k, b[0], b[1], a[0], a[1]))
 				break
